@@ -102,6 +102,27 @@ def r2(ctx):
                         other = r['rhs'] if fn.key(r['lhs']) == name else r['lhs']
                         if (fn.val(other) or 0) > 0:
                             incs.add(nid)
+            # the remaining-length test of the loop admits an escape that ends exactly at the end of the request ("%41" as
+            # the last three characters): evaluated at cursor = length - 3
+            import re as _re
+            name = cur.split(':')[-1]
+            lens = set()
+            for b_ in fn.blocks.values():
+                if b_.cond is not None and len(b_.succs) == 2:
+                    for j_ in (0, 1):
+                        for a_ in fn.norm_atom(fn.effective_cond(b_.id), j_ == 0):
+                            m_ = _re.match(r'^\(\(%s \+ #(\d+)\) (<|<=) %s\.(?:length|size)\(\)\)$' % (_re.escape(name), _re.escape(strkey)), a_[0])
+                            m2_ = _re.match(r'^\(%s (<|<=) \(%s\.(?:length|size)\(\) - #(\d+)\)\)$' % (_re.escape(name), _re.escape(strkey)), a_[0])
+                            if m_:
+                                lens.add((int(m_.group(1)), m_.group(2)))
+                            if m2_:
+                                lens.add((int(m2_.group(2)), m2_.group(1)))
+            for k_, op_ in sorted(lens):
+                L_ = 100
+                admits = (L_ - 3 + k_ < L_) if op_ == '<' else (L_ - 3 + k_ <= L_)
+                n += 1
+                ctx.ob('C18.R2', fn, fc, admits, 'remaining-length test of the %-decode loop',
+                       'cursor + %d %s length admits an escape at the very end of the request: %s' % (k_, op_, admits))
             target = fn.pos(fc)
             for st in stores:
                 sp = fn.pos(st)
